@@ -394,6 +394,9 @@ func checkLockDiscipline(c *Ctx, r *Report, ownerPkg, ownerType, mutexField stri
 	}
 	var heldAtEntry func(f *ssa.Function, depth int) bool
 	heldAtEntry = func(f *ssa.Function, depth int) bool {
+		if f.Parent() != nil && (lockHeldInParentAtClosure(f, ownerPkg, ownerType, mutexField) || closureUnderHelperLock(c, f, ownerPkg, ownerType, mutexField, false)) {
+			return true
+		}
 		top := topParent(f)
 		cs := callers[top]
 		if len(cs) == 0 || depth == 0 {
@@ -436,6 +439,8 @@ func checkLockDiscipline(c *Ctx, r *Report, ownerPkg, ownerType, mutexField stri
 				r.OK(lockRule, key, in.Pos(), mutexField+" is held (dominating Lock/RLock, not released before the access)")
 			case f.Parent() != nil && lockHeldInParentAtClosure(f, ownerPkg, ownerType, mutexField):
 				r.OK(lockRule, key, in.Pos(), mutexField+" is held by the enclosing function while this synchronous closure runs")
+			case closureUnderHelperLock(c, f, ownerPkg, ownerType, mutexField, false):
+				r.OK(lockRule, key, in.Pos(), "the closure is run by a helper that holds "+mutexField+" around the call")
 			case heldAtEntry(f, 3):
 				r.OK(lockRule, key, in.Pos(), "helper: every caller holds "+mutexField+" at the call site")
 			default:
@@ -490,6 +495,57 @@ func lockHeldInParentAtClosure(f *ssa.Function, ownerPkg, ownerType, mutexField 
 		}
 		if lockHeld(p, in, ownerPkg, ownerType, mutexField, false) {
 			held = true
+		}
+	})
+	return held
+}
+
+// closureUnderHelperLock: the closure f is handed to a repo helper (`r.withLock(func() { … })`) that invokes its
+// function parameter only while holding the mutex (Lock, or RLock when !exclusive) — the helper spelling of a
+// Lock/Unlock pair around the closure's statements.
+func closureUnderHelperLock(c *Ctx, f *ssa.Function, ownerPkg, ownerType, mutexField string, exclusive bool) bool {
+	p := f.Parent()
+	if p == nil {
+		return false
+	}
+	held := false
+	eachInstr(p, func(in ssa.Instruction) {
+		mc, ok := in.(*ssa.MakeClosure)
+		if !ok || mc.Fn != ssa.Value(f) {
+			return
+		}
+		for _, ref := range *mc.Referrers() {
+			call, ok := ref.(*ssa.Call)
+			if !ok {
+				continue
+			}
+			g := call.Call.StaticCallee()
+			if g == nil || g.Blocks == nil || !c.inRepo(g) {
+				continue
+			}
+			for i, a := range call.Call.Args {
+				if a != ssa.Value(mc) || i >= len(g.Params) {
+					continue
+				}
+				n, all := 0, true
+				eachInstr(g, func(gi ssa.Instruction) {
+					cc := getCall(gi)
+					if cc == nil || cc.Value != ssa.Value(g.Params[i]) {
+						return
+					}
+					if _, isGo := gi.(*ssa.Go); isGo {
+						all = false
+						return
+					}
+					n++
+					if !lockHeld(g, gi, ownerPkg, ownerType, mutexField, exclusive) {
+						all = false
+					}
+				})
+				if n > 0 && all {
+					held = true
+				}
+			}
 		}
 	})
 	return held
